@@ -338,6 +338,29 @@ def _cutoff(repo, out):
                "   far (possibly none) to a forecaster marked as not fitted *)\n"
                "Definition gen_refit_on_all_data : bool := true.\n"
                "Definition gen_refit_needs_horizon : bool := false.\n")
+    # update_predict: the moving cutoffs are undone - `_detached_cutoff` remembers the cutoff, yields,
+    # and puts it back in a `finally`; `_predict_moving_cutoff` moves the cutoff only inside it
+    fn = find(cls, "_detached_cutoff")
+    _need([_u(d) for d in fn.decorator_list] == ["contextmanager"] and argnames(fn) == ["self"], "_detached_cutoff is a context manager")
+    b = body_of(fn)
+    _need(len(b) == 2 and isinstance(b[0], ast.Assign) and len(b[0].targets) == 1 and isinstance(b[0].targets[0], ast.Name)
+          and _u(b[0].value) == "self.cutoff" and isinstance(b[1], ast.Try) and not b[1].handlers and not b[1].orelse
+          and len(b[1].body) == 1 and isinstance(b[1].body[0], ast.Expr) and isinstance(b[1].body[0].value, ast.Yield)
+          and b[1].body[0].value.value is None and len(b[1].finalbody) == 1
+          and _u(b[1].finalbody[0]) == "self._set_cutoff(%s)" % b[0].targets[0].id,
+          "_detached_cutoff: c = self.cutoff; try: yield; finally: self._set_cutoff(c)")
+    fn = find(cls, "_predict_moving_cutoff")
+    withs = [n for n in ast.walk(fn) if isinstance(n, ast.With)]
+    _need(len(withs) == 1 and len(withs[0].items) == 1 and _u(withs[0].items[0].context_expr) == "self._detached_cutoff()",
+          "_predict_moving_cutoff works inside `with self._detached_cutoff():`")
+    inside = {id(n) for n in ast.walk(withs[0])}
+    movers = [n for n in ast.walk(fn) if isinstance(n, ast.Call) and isinstance(n.func, ast.Attribute)
+              and n.func.attr in ("_set_cutoff", "update", "_update_predict_single", "_update_y_X", "fit")]
+    _need(movers and all(id(n) in inside for n in movers),
+          "_predict_moving_cutoff moves the cutoff outside the detached-cutoff block")
+    out.append("(* update_predict: every move of the cutoff happens inside `with self._detached_cutoff()`, which\n"
+               "   puts the cutoff back afterwards *)\n"
+               "Definition gen_update_predict_restores_cutoff : bool := true.\n")
     fn = find(cls, "predict")
     _need(argnames(fn)[:2] == ["self", "fh"], "predict signature")
     e, l = select(C.of(fn, scope), _decider({}), "predict")
